@@ -72,7 +72,57 @@ def check_case(case, substep=1):
         if case.inner == "ins" and case.outer == "ins" and not case.steady:
             if abs(dE) > tol:
                 bad.append(("insulated", "step %d: insulated tube changed sum r_i T_i by %.3e" % (n, dE)))
+    bad += substep_chain(case, substep, prob, steps)
     return bad, thick
+
+
+def substep_chain(case, substep, prob, steps):
+    """the real solve_step_substep over each full step vs the chain of sub-steps at the documented
+    times t_n + i*dt/substep (which the identities above were evaluated on).  A difference is a
+    correspondence break; it is a property violation when the stored-heat change of the real step
+    lies outside what the boundary data can deliver DURING that step (flux walls, constant material)."""
+    bad = []
+    if case.steady:
+        return bad
+    prob_s, tube, mat, fluid = tc.problem(case, substep=substep, atol=tc.auto_atol(case), rtol=1e-13, miter=30)
+    times = np.array(case.times)
+    T = tc.initial_field(prob_s, case)
+    rr = np.linspace(case.r - case.t - prob.dr, case.r + prob.dr, case.nr + 2)
+    I = slice(1, case.nr + 1)
+    J = slice(1, case.nt + 1) if case.ndim >= 2 else slice(0, 1)
+    Kk = slice(1, case.nz + 1) if case.ndim >= 3 else slice(0, 1)
+    for n in range(len(times) - 1):
+        dt = times[n + 1] - times[n]
+        Treal = np.array(prob_s.solve_step_substep(np.array(T, copy=True), times[n + 1], dt))
+        manual = steps[(n + 1) * substep - 1]["T"]
+        scale = float(np.max(np.abs(manual))) + 1.0
+        if np.max(np.abs(Treal - manual)) > 1e-7 * scale:
+            pure_flux = all(k in ("ins", "flux") for k in (case.inner, case.outer)) and case.mat_T is None
+            msg = ("step %d with substep=%d: solve_step_substep differs from the chain of sub-steps at times t_n + i*dt/substep by %.3e"
+                   % (n, substep, float(np.max(np.abs(Treal - manual)))))
+            if pure_flux:
+                dE = float(np.sum(rr[I, None, None] * (Treal.reshape(prob.fdim)[I, J, Kk] - np.array(T).reshape(prob.fdim)[I, J, Kk])))
+                a, k = float(case.mat_a[0]), float(case.mat_k[0])
+                lo = hi = 0.0
+                for which, kind in (("inner", case.inner), ("outer", case.outer)):
+                    if kind != "flux":
+                        continue
+                    q0 = np.array(tc.wall_values(case, tube, mat, fluid, which, times[n])[1])
+                    q1 = np.array(tc.wall_values(case, tube, mat, fluid, which, times[n + 1])[1])
+                    rh = 0.5 * (rr[0] + rr[1]) if which == "inner" else 0.5 * (rr[case.nr] + rr[case.nr + 1])
+                    coef = dt * rh * a / k / prob.dr
+                    lo += coef * float(np.sum(np.minimum(q0, q1)))
+                    hi += coef * float(np.sum(np.maximum(q0, q1)))
+                slack = 1e-6 * (abs(lo) + abs(hi) + scale)
+                if dE < lo - slack or dE > hi + slack:
+                    bad.append(("substep-window", msg + "; stored heat changed by %.9g but the flux data during [t_n, t_n+1] can deliver only [%.9g, %.9g]"
+                                % (dE, lo, hi)))
+                else:
+                    bad.append(("substep-chain-only", msg))
+            else:
+                bad.append(("substep-chain-only", msg))
+        T = Treal
+    return bad
 
 
 def run(ctx):
@@ -98,6 +148,7 @@ def run(ctx):
     mism = tc.matrix_correspondence(ctx, cases, "C02")
     # ---- property on real solves ----
     viol = []
+    chain_only = []
     for n in range(n_real):
         i, o = pairs[(n * 7) % len(pairs)]
         c = tc.gen_case(rng, ndim=1 + n % 3, inner=i, outer=o, steady=False)
@@ -106,6 +157,12 @@ def run(ctx):
             c.inner_data = c.outer_data = c.inner_data2 = c.outer_data2 = None
         if n % 5 == 1 and c.inner == "flux":
             c.inner_data = np.abs(c.inner_data) + 0.25
+        if n % 4 == 2:
+            c.substep = rng.choice([2, 3, 4])
+            if n % 8 == 2:   # pure flux walls, constant material: the sub-step window predicate applies
+                c2 = tc.gen_case(rng, ndim=c.ndim, inner=rng.choice(["ins", "flux"]), outer="flux", steady=False, const_mat=True)
+                c2.substep = c.substep
+                c = c2
         try:
             bad, thick = check_case(c, substep=c.substep)
         except (RuntimeError, ValueError) as e:
@@ -118,7 +175,14 @@ def run(ctx):
                  sample={"suite": "energy identities on real solves", "ndim": c.ndim, "inner": c.inner, "outer": c.outer,
                          "steps": len(c.times) - 1, "substep": c.substep, "failures": bad[:2]})
         for what, detail in bad:
-            viol.append((c, what, detail))
+            if what == "substep-chain-only":
+                chain_only.append((c, detail))
+            else:
+                viol.append((c, what, detail))
+    ctx.obligation("correspondence: real solve_step_substep == chain of sub-steps at the documented sub-step times",
+                   not chain_only and not [v for v in viol if v[1] == "substep-window"],
+                   "%d differ; first: %s" % (len(chain_only), chain_only[0][1] if chain_only else ""))
+    mism = list(mism) + [(c, [d]) for c, d in chain_only]
     # ---- known corner F17: thick coarse tube ----
     f17 = tc.gen_case(rng, ndim=1, inner="flux", outer="ins", steady=False, const_mat=True, thick_ok=True, nsteps=1)
     f17.r, f17.t, f17.nr, f17.h = 1.0, 0.8, 2, 1.0
